@@ -12,15 +12,17 @@
 (***************************************************************************)
 HostKinds == {"ipv4", "ipv6", "unix"}
 Nats == {"none", "fixed", "sameport"}
+\* how the outside host is written: a name, or an IPv6 address (as the application knows it: without brackets)
+NatHosts == {"name", "ipv6"}
 \* which address a handed-out uri names
 Names(h, n, asknat) ==
     IF h = "unix" THEN (IF n = "none" THEN "inside" ELSE "ValueError")
     ELSE IF n = "none" \/ ~asknat THEN "inside"
     ELSE IF n = "fixed" THEN "outside_fixed" ELSE "outside_actualport"
-VARIABLES h, n, asknat
-Init == h \in HostKinds /\ n \in Nats /\ asknat \in BOOLEAN
-Next == UNCHANGED <<h, n, asknat>>
-Spec == Init /\ [][Next]_<<h, n, asknat>>
+VARIABLES h, n, nh, asknat
+Init == h \in HostKinds /\ n \in Nats /\ nh \in NatHosts /\ asknat \in BOOLEAN
+Next == UNCHANGED <<h, n, nh, asknat>>
+Spec == Init /\ [][Next]_<<h, n, nh, asknat>>
 \* every kind of listening address can be combined with every outside address that makes sense for it
 NetworkHostsCanBeTranslated == (h # "unix") => Names(h, n, asknat) # "ValueError"
 =============================================================================
